@@ -166,8 +166,8 @@ type lockIn struct {
 }
 
 type lockState struct {
-	holder    int // 0 none, p = party p holds, -p = party p holds transiently inside a failing Open
-	damaged   bool
+	holder  int // 0 none, p = party p holds, -p = party p holds transiently inside a failing Open
+	damaged bool
 }
 
 var lockModel = porcupine.Model{
